@@ -111,8 +111,14 @@ func (b *balancer) next() (int, error) {
 	if len(b.roundRobinQ) == 1 {
 		return b.roundRobinQ[0], nil
 	}
-	// 无锁原子自增（自动处理溢出）
-	newIndex := atomic.AddUint32(&b.nextIndex, 1)
-	idx := int64(newIndex) % int64(len(b.roundRobinQ))
-	return b.roundRobinQ[idx], nil
+	// 无锁自增并在队列长度处回绕: 计数器始终保持在 [0, len) 内, 因此 uint32 溢出时
+	// 不会因为 2^32 不是队列长度的整数倍而打乱轮询顺序
+	n := uint32(len(b.roundRobinQ))
+	for {
+		old := atomic.LoadUint32(&b.nextIndex)
+		idx := (old%n + 1) % n
+		if atomic.CompareAndSwapUint32(&b.nextIndex, old, idx) {
+			return b.roundRobinQ[idx], nil
+		}
+	}
 }
